@@ -1115,10 +1115,10 @@ impl Scenario for Model {
             match out {
                 OpOutcome::Ok(()) => {}
                 OpOutcome::Panic(p) => {
-                    // a panic on plain numbers is C07's business; here the history cannot be judged further
-                    cx().count("discard.panic");
-                    cx().discarded = true;
+                    // every bitmap operation is total: pages beyond the end are ignored and read as clean,
+                    // whatever the numbers (the implementation saturates / wraps on purpose)
                     log.push(format!("{} -> PANIC {}", desc, p));
+                    cx().violate("C09", "C09/panic", format!("panic in {}", what), format!("step {} {}: panicked: {} (history {:?})", step, desc, p, log));
                     break;
                 }
                 OpOutcome::Sim(_) => {
